@@ -1,7 +1,7 @@
 (* Concrete witnesses for C15 on the model instantiated with the JSON / base64 functions of
    RJson.v (the instantiation that the correspondence check compares with the implementation). *)
 Require Import V.Base.Prelude V.KflText.Macro V.KflText.MacroProofs V.KflText.RJv V.KflText.Redact V.KflText.RedactSpec
-  V.KflText.RJson V.KflText.RedactProofs.
+  V.KflText.RJson V.KflText.RedactProofs V.KflText.RedactMulti V.KflText.RedactArgs.
 Local Open Scope bool_scope.
 
 Definition by_ (l : list N) : bytes := bs l.
@@ -41,3 +41,93 @@ Lemma example_redaction :
              /\ sub parse b64d r' [SKey (by_ [97]%N); SIdx 0; SHop; SKey (by_ [100]%N)] = sub parse b64d wit_record [SKey (by_ [97]%N); SIdx 0; SHop; SKey (by_ [100]%N)]
              /\ sub parse b64d r' [SKey (by_ [97]%N); SIdx 1] = Some (JStr doc2).
 Proof. eexists. split; [vm_compute; reflexivity|]. vm_compute. repeat split; reflexivity. Qed.
+
+(* several overlapping paths: redact("a", "a.b", "d") on {"a":{"b":"zq0001x","c":"zq0002x"},"d":"zq0003x","e":"zq0004x"}.
+   The three paths denote a, a.b and d in the record; a.b no longer exists when its turn comes (in
+   the reversed order it is written first and then overwritten); both orders give the same record *)
+Definition ka : bytes := by_ [97]%N.
+Definition kb : bytes := by_ [98]%N.
+Definition kc : bytes := by_ [99]%N.
+Definition kd : bytes := by_ [100]%N.
+Definition ke : bytes := by_ [101]%N.
+Definition zq (n : N) : jv := JStr (by_ [122;113;48;48;48;n;120]%N).
+Definition multi_record : jv :=
+  JObj [(ka, JObj [(kb, zq 49); (kc, zq 50)]); (kd, zq 51); (ke, zq 52)].
+Definition multi_paths : list (list frag) := [[Child ka]; [Child ka; Child kb]; [Child kd]].
+
+Lemma multi_wf : wf multi_record.
+Proof.
+  cbn [wf multi_record map fst snd]. repeat split; try exact I; repeat (constructor; [cbn [In]; intros H; decompose [or] H; try discriminate; try contradiction|]); constructor.
+Qed.
+
+Lemma example_several_paths :
+  wf multi_record
+  /\ paths_denote multi_paths multi_record [SKey ka]
+  /\ paths_denote multi_paths multi_record [SKey ka; SKey kb]
+  /\ paths_denote multi_paths multi_record [SKey kd]
+  /\ setm_all multi_paths multi_record = JObj [(ka, MARK); (kd, MARK); (ke, zq 52)]
+  /\ setm_all (rev multi_paths) multi_record = JObj [(ka, MARK); (kd, MARK); (ke, zq 52)].
+Proof.
+  split; [exact multi_wf|]. split; [|split; [|split; [|split]]].
+  - exists [Child ka]. split; [left; reflexivity|]. econstructor; [reflexivity | constructor].
+  - exists [Child ka; Child kb]. split; [right; left; reflexivity|].
+    econstructor; [reflexivity|]. econstructor; [reflexivity | constructor].
+  - exists [Child kd]. split; [right; right; left; reflexivity|]. econstructor; [reflexivity | constructor].
+  - vm_compute. reflexivity.
+  - vm_compute. reflexivity.
+Qed.
+
+(* several arguments with hops: redact("a[0].json().c", "a[0].json().d", "a[1]") on wit_record.
+   The second argument is evaluated on the record that the first one changed (the document in a[0]
+   was re-encoded); every argument satisfies the hypotheses of the several-arguments theorem *)
+Definition arg_c : list seg := ex_arg.
+Definition arg_d : list seg :=
+  [{| sjp := [Child ka; Nth 0]; sxml := None |}; {| sjp := [Child kd]; sxml := None |}].
+Definition arg_1 : list seg := [{| sjp := [Child ka; Nth 1]; sxml := None |}].
+Definition multi_args : list (list seg) := [arg_c; arg_d; arg_1].
+
+Lemma single_a0 q : SingleHops parse b64d [[Child ka; Nth 0]; q] wit_record.
+Proof.
+  constructor.
+  - intros L L' H H'. apply in_matches_iff in H, H'. vm_compute in H, H'.
+    destruct H as [<-|[]], H' as [<-|[]]. reflexivity.
+  - intros. constructor.
+Qed.
+
+Lemma multi_args_good : forall a, In a multi_args -> good_arg parse b64d wit_record a.
+Proof.
+  intros a [<-|[<-|[<-|[]]]]; (split; [discriminate|]); (split; [repeat constructor|]).
+  - apply single_a0.
+  - apply single_a0.
+  - constructor.
+Qed.
+
+Lemma example_several_arguments :
+  (forall a, In a multi_args -> good_arg parse b64d wit_record a)
+  /\ args_denote parse b64d multi_args wit_record [SKey ka; SIdx 0; SHop; SKey kc]
+  /\ args_denote parse b64d multi_args wit_record [SKey ka; SIdx 0; SHop; SKey kd]
+  /\ args_denote parse b64d multi_args wit_record [SKey ka; SIdx 1]
+  /\ exists r', redact_model parse render b64d b64e no_xml wit_record multi_args = r'
+       /\ sub parse b64d r' [SKey ka; SIdx 0; SHop; SKey kc] = Some MARK
+       /\ sub parse b64d r' [SKey ka; SIdx 0; SHop; SKey kd] = Some MARK
+       /\ sub parse b64d r' [SKey ka; SIdx 1] = Some MARK.
+Proof.
+  split; [exact multi_args_good|]. split; [|split; [|split]].
+  - exists arg_c. split; [left; reflexivity|].
+    change [SKey ka; SIdx 0; SHop; SKey kc] with ([SKey ka; SIdx 0] ++ SHop :: [SKey kc]).
+    eapply DA_hop.
+    + econstructor; [reflexivity|]. econstructor; [reflexivity | reflexivity | constructor].
+    + vm_compute. reflexivity.
+    + vm_compute. reflexivity.
+    + constructor. econstructor; [vm_compute; reflexivity | constructor].
+  - exists arg_d. split; [right; left; reflexivity|].
+    change [SKey ka; SIdx 0; SHop; SKey kd] with ([SKey ka; SIdx 0] ++ SHop :: [SKey kd]).
+    eapply DA_hop.
+    + econstructor; [reflexivity|]. econstructor; [reflexivity | reflexivity | constructor].
+    + vm_compute. reflexivity.
+    + vm_compute. reflexivity.
+    + constructor. econstructor; [vm_compute; reflexivity | constructor].
+  - exists arg_1. split; [right; right; left; reflexivity|]. constructor.
+    econstructor; [reflexivity|]. econstructor; [reflexivity | reflexivity | constructor].
+  - eexists. split; [reflexivity|]. vm_compute. repeat split; reflexivity.
+Qed.
